@@ -43,6 +43,15 @@ PREFER["7"] = ("This time prefer one of the following kinds of change: (s) an in
                "be rejected is silently accepted, or a different exception type is raised. Do NOT use in-place modification of the caller's arguments, "
                "caches / module-level state, exact-zero priors, tolerance-argument swaps, row-vector handling, single-number dimension arguments, "
                "seed-0 handling or a conjugation of returned measurement operators (all used in earlier rounds).")
+PREFER["8"] = ("Seven earlier changes per property are listed above. This time: first list for yourself every public function, every optional argument "
+               "and every branch (input form, size regime, special case) of the relevant source files, strike out what the earlier changes already "
+               "touched, and seed your change in something that is left - preferably (w) a loop bound, index or reshape that uses the wrong one of two "
+               "sizes and therefore shows only when those sizes differ in a position not exercised before (third subsystem, Bob versus Alice, outputs "
+               "versus inputs, environment versus system); (x) a comparison at the edge of a tolerance or range (<= versus <, abs versus signed, a "
+               "tolerance scaled by the wrong dimension) shown by an input a clear factor away from the edge; (y) the type, dtype or shape of what is "
+               "returned (flat versus column, real versus complex, numpy scalar versus array) where a documented relation with another function breaks; "
+               "(z) a helper imported from another package of the library (matrix_ops, states, perms, helper) used with swapped or missing arguments. "
+               "Do NOT reuse any mechanism named in the list above.")
 TEMPLATE = open(os.path.join(os.path.dirname(os.path.abspath(__file__)), "seedprompt.template.txt")).read()
 os.makedirs(f"/tmp/seeded{ROUND}", exist_ok=True)
 for line in open("/verif/properties.jsonl"):
